@@ -257,10 +257,11 @@ CHECKS["C15"] = {
             "{UDP listener, stream listener, staggered timeouts (100s,40s,70s) on both}; after every event: open relay "
             "sockets/listeners == those of the model's live allocations, Server.AllocationCount == their number, lifecycle callbacks pair up (no delete without create, none twice, outstanding == live model entries); then a drain "
             "through all deadlines, 2 h of silence (no callback, no socket activity on behalf of ended allocations), Server.Close (nothing owned by the server stays open, count 0) and goroutine drain of the bubble. "
-            "Part rich: allocations owning several permissions, three channel bindings and (stream listener) a TCP allocation with pending and bound peer connections, EVEN-PORT allocations and a wildcard listener, ended in every way (depth 2/3). Part tls: every non-empty subset of {silent, stalled in a record, clear text, handshake done idle, handshake done with allocation} connections on a TLS listener, Server.Close at once or after the 10 s handshake time-out: a failed handshake closes its connection, nothing accepted stays open. Part sched (Engine B, preemption-bounded DFS over the real goroutines): expiry during a slow lifecycle callback (allocation / permission / channel, also the permission callback of a ChannelBind), equal deadlines, expiry during a slow Connect dial of the own and of another allocation (with a relay probe after the expiry). "
+            "Part rich: allocations owning several permissions, three channel bindings and (stream listener) a TCP allocation with pending and bound peer connections, EVEN-PORT allocations and a wildcard listener, ended in every way (depth 2/3). Part dual: a server with a UDP socket and a stream listener, histories of depth 3/4 over both kinds of client, Server.Close also when the application has already closed the UDP socket it configured (Close meets an error on one socket and must still release the accepted connections and their allocations). Part tls: every non-empty subset of {silent, stalled in a record, clear text, handshake done idle, handshake done with allocation} connections on a TLS listener, Server.Close at once or after the 10 s handshake time-out: a failed handshake closes its connection, nothing accepted stays open. Part sched (Engine B, preemption-bounded DFS over the real goroutines): expiry during a slow lifecycle callback (allocation / permission / channel, also the permission callback of a ChannelBind), equal deadlines, expiry during a slow Connect dial of the own and of another allocation (with a relay probe after the expiry). "
             "A class is (event class => response); distinct_nontrivial counts those.",
     "parts": [A("vtx", "./checks/c15", "TestC15", budget={"quick": 90, "thorough": 1500}),
               A("rich", "./checks/c15", "TestC15Rich", budget={"quick": 60, "thorough": 900}),
+              A("dual", "./checks/c15", "TestC15Dual", budget={"quick": 60, "thorough": 900}),
               A("tls", "./checks/c15", "TestC15TLS", nshards=1, budget={"quick": 60, "thorough": 60}),
               A("sched", "./checks/bsem", "TestC15Sched", overlay=True, gomaxprocs=1, budget={"quick": 90, "thorough": 1500})],
 }
